@@ -1,1050 +1,41 @@
-(** ow-sim (ImplSim) = the sequential reference (RefSim), for every legal
-    schedule of simulation, link processing, writing and purging.
-
-    Invariant (see [model_inv]): with [d] the reference results of the
-    generations already simulated and [applied] the links already processed,
-      - a generation that has been simulated is either purged (allowed only once
-        it is written and its links are applied) or holds exactly the reference
-        inputs / outputs / final states of its rows;
-      - a generation not yet simulated, seen through the lazy loader ([view]),
-        holds stored input + the contributions of the applied links, i.e. the
-        reference input restricted to [applied];
-      - the output file holds the reference rows of the written generations. *)
+(** The external-writer mode: when the model's last batch is non-empty the
+    process exits only after the child has written every message; when the last
+    batch is empty it can exit with messages still unwritten (refutation). *)
 From Coq Require Import List Arith Bool Lia.
-From OW Require Import Sim.SimAux Sim.SimAuxProofs Sim.Graph Sim.GraphProofs Sim.RefSim Sim.ImplSim Sim.Sched.
+From OW Require Import Sim.SimAux Sim.SimAuxProofs Sim.SplitProtocol.
 Import ListNotations.
 
-Section Proofs.
-  Variables name T Ser : Type.
-  Variable s_zero : nat -> Ser.
-  Variable s_add : Ser -> Ser -> Ser.
-  Variable cat : catalogue name.
-  Variable K : name -> list T -> list T -> list Ser -> option (list Ser * list T).
-  Variable name_eqb : name -> name -> bool.
-  Variable gr : graph name T Ser.
-  Variable sel : selection name.
+Section P.
+  Variable counts : list nat.
+  Local Notation G := (xG counts).
 
-  Hypothesis Hvalid : valid_graph cat name_eqb gr = true.
-  (** the catalogue describes the kernels: a run yields one series per catalogued output *)
-  Hypothesis K_wf : forall nm p s i o s', K nm p s i = Some (o, s') -> length o = cat_nout cat nm.
-  (** no model is written through an external writer process (-outputs model=file) *)
-  Hypothesis Hnosplit : forall md, In md (g_models gr) -> is_split name_eqb sel md = false.
-
-  Local Notation G := (n_gens gr).
-  Local Notation M := (g_models gr).
-  Local Notation L := (g_links gr).
-  Local Notation outp := (sel_outfile sel).
-  Local Notation model_data := (model_data name T Ser).
-  Local Notation gen_data := (gen_data T Ser).
-  Local Notation mref := (mref T Ser).
-  Local Notation istate := (istate T Ser).
-  Local Notation node_result := (node_result T Ser).
-  Local Notation done_t := (done_t T Ser).
-  Local Notation model_out := (model_out T Ser).
-  Local Notation stored_input := (stored_input s_zero cat gr).
-  Local Notation ref_input_from := (@ref_input_from T Ser s_add).
-  Local Notation ref_node := (ref_node s_zero s_add cat K gr).
-  Local Notation ref_gen := (ref_gen s_zero s_add cat K gr).
-  Local Notation load_gen := (load_gen s_zero cat gr).
-  Local Notation get_generation := (get_generation s_zero cat gr).
-
-  (** ---------- validity facts, specialised ---------- *)
-  Lemma VG : 1 <= G. Proof. eapply valid_G; eauto. Qed.
-  Lemma Vlen md : In md M -> length (md_batches md) = G. Proof. intros; eapply vm_len; eauto. Qed.
-  Lemma Vparams md : In md M -> length (md_params md) = m_total md. Proof. intros; eapply vm_params; eauto. Qed.
-  Lemma Vstates md : In md M -> length (md_states md) = m_total md. Proof. intros; eapply vm_states; eauto. Qed.
-  Lemma Vinputs md t tbl : In md M -> md_inputs md = Some (t, tbl) ->
-    length tbl = m_total md /\ Forall (fun row => length row = cat_nin cat (md_name md)) tbl.
-  Proof. intros; eapply vm_inputs; eauto. Qed.
-  Lemma Vmono md g g' : In md M -> g <= g' -> g' <= G -> m_start md g <= m_start md g'.
-  Proof. intros; eapply m_start_mono; eauto. Qed.
-  Lemma Vle md g : In md M -> g < G -> m_start md g <= m_stop md g.
-  Proof. intros; eapply m_start_le_stop; eauto. Qed.
-  Lemma Vadd md g : In md M -> g < G -> m_start md g + m_count md g = m_stop md g.
-  Proof. intros; eapply m_count_add; eauto. Qed.
-  Lemma Vtot md : In md M -> m_total md = m_start md G.
-  Proof. intros; eapply m_total_start; eauto. Qed.
-  Lemma Vstop md g : In md M -> g < G -> m_stop md g <= m_total md.
-  Proof. intros; eapply m_stop_le_total; eauto. Qed.
-  Lemma Vuniq md g g' row : In md M -> g < G -> g' < G ->
-    m_start md g <= row < m_stop md g -> m_start md g' <= row < m_stop md g' -> g = g'.
-  Proof. intros; eapply gen_of_row_unique; eauto. Qed.
-  Lemma Vlink l : In l L ->
-    exists ms md, nth_error M (l_src_model l) = Some ms /\ nth_error M (l_dest_model l) = Some md /\
-      l_src_gen l < l_dest_gen l /\ l_dest_gen l < G /\
-      l_src_gen_node l < m_count ms (l_src_gen l) /\
-      l_src_node l = m_start ms (l_src_gen l) + l_src_gen_node l /\
-      l_src_var l < cat_nout cat (md_name ms) /\
-      l_dest_gen_node l < m_count md (l_dest_gen l) /\
-      l_dest_node l = m_start md (l_dest_gen l) + l_dest_gen_node l /\
-      l_dest_var l < cat_nin cat (md_name md).
-  Proof. intros; eapply valid_link_props; eauto. Qed.
-  Lemma Vsame : same_lengths (input_lengths gr) = true. Proof. eapply valid_same_lengths; eauto. Qed.
-  Lemma Vsorted : sorted_nat (map l_src_gen L) = true. Proof. eapply valid_links_sorted; eauto. Qed.
-
-  (** ---------- the simulation length ---------- *)
-  Definition sl_step (sl : nat) (md : model_data) : nat :=
-    if sl =? 0 then match md_inputs md with Some (t, _) => t | None => sl end else sl.
-  Definition in_lens (mds : list model_data) : list nat :=
-    flat_map (fun md => match md_inputs md with Some (t, _) => [t] | None => [] end) mds.
-
-  Lemma sl_aux mds : forall t, Forall (fun x => x = t) (in_lens mds) ->
-    fold_left sl_step mds t = t /\
-    fold_left sl_step mds 0 = match in_lens mds with [] => 0 | _ => t end.
+  Lemma nonempty_gens_S n :
+    nonempty_gens counts (S n) = nonempty_gens counts n ++ (if 0 <? xcount counts n then [n] else []).
   Proof.
-    induction mds as [|md mds IH]; intros t HF; cbn [fold_left in_lens flat_map]; [cbn; auto|].
-    cbn [in_lens flat_map] in HF. fold (in_lens mds) in HF |- *.
-    unfold sl_step at 2 4.
-    destruct (md_inputs md) as [[t' tbl]|] eqn:E.
-    - cbn in HF. inversion HF; subst. destruct (IH _ H2) as [I1 I2].
-      split.
-      + destruct (t =? 0); exact I1.
-      + cbn. exact I1.
-    - cbn in HF. destruct (IH _ HF) as [I1 I2]. split.
-      + destruct (t =? 0); exact I1.
-      + cbn. exact I2.
+    unfold nonempty_gens. rewrite seq_S, filter_app. cbn. destruct (0 <? xcount counts n); reflexivity.
   Qed.
 
-  Lemma sim_length_eq : impl_sim_length gr = ref_T gr.
+  Definition xinv (s : xstate) : Prop :=
+    x_file s ++ x_queue s = nonempty_gens counts (x_next s) ++ (if x_waiting s then [x_next s] else []) /\
+    x_next s <= G /\
+    (x_waiting s = true -> S (x_next s) = G /\ 0 < xcount counts (x_next s)) /\
+    (x_next s = G -> 0 < xcount counts (G - 1) -> x_queue s = [] /\ x_waiting s = false) /\
+    (x_exited s = true -> x_next s = G).
+
+  Lemma xinv_init : xinv (xinit).
+  Proof. unfold xinv, xinit; cbn. repeat split; auto; try lia; try discriminate. Qed.
+
+  Lemma xinv_step s l s' : xinv s -> xnext counts s l = Some s' -> xinv s'.
   Proof.
-    pose proof Vsame as HS.
-    unfold impl_sim_length, ref_T, input_lengths in *.
-    fold (in_lens M) in HS |- *. fold sl_step.
-    destruct (in_lens M) as [|t r] eqn:EL.
-    - destruct (sl_aux M 0) as [_ A2]; [rewrite EL; constructor|]. rewrite EL in A2. exact A2.
-    - cbn in HS. destruct (sl_aux M t) as [_ A2].
-      + rewrite EL. constructor; [reflexivity|]. rewrite forallb_forall in HS.
-        apply Forall_forall. intros x Hx. symmetry. apply Nat.eqb_eq. auto.
-      + rewrite EL in A2. exact A2.
-  Qed.
-
-  (** ---------- expected contents of the memory ---------- *)
-
-  Definition empty_gd : gen_data :=
-    {| gd_count := 0; gd_inputs := []; gd_states := []; gd_params := []; gd_outputs := None |}.
-
-  (** a generation that has not been simulated, with input rows [ins] *)
-  Definition pending_gd (md : model_data) (g : nat) (ins : list (list Ser)) : gen_data :=
-    if m_count md g =? 0 then empty_gd else
-    {| gd_count := m_count md g; gd_inputs := ins;
-       gd_states := slice_rows (m_start md g) (m_count md g) (md_states md);
-       gd_params := slice_rows (m_start md g) (m_count md g) (md_params md);
-       gd_outputs := None |}.
-
-  (** a generation that has been simulated: the reference results of its rows *)
-  Definition final_gd (md : model_data) (dm : list node_result) (g : nat) : gen_data :=
-    if m_count md g =? 0 then empty_gd else
-    let rows := slice_rows (m_start md g) (m_count md g) dm in
-    {| gd_count := m_count md g; gd_inputs := map (@nr_in _ _) rows;
-       gd_states := map (@nr_st _ _) rows;
-       gd_params := slice_rows (m_start md g) (m_count md g) (md_params md);
-       gd_outputs := Some (map (@nr_out _ _) rows) |}.
-
-  (** the reference input of node (m,row) restricted to the links [applied] *)
-  Definition exp_row (d : done_t) (applied : list link) (m : nat) (md : model_data) (row : nat)
-    : option (list Ser) :=
-    init <- stored_input md row ;; ref_input_from d applied m row init.
-
-  Definition exp_inputs (d : done_t) (applied : list link) (m : nat) (md : model_data) (g : nat)
-    : option (list (list Ser)) :=
-    mapM (exp_row d applied m md) (seq (m_start md g) (m_count md g)).
-
-  (** what GetGeneration would return, without changing anything *)
-  Definition view (md : model_data) (gens : list (option gen_data)) (g : nat) : option gen_data :=
-    match nth_error gens g with
-    | Some (Some gd) => Some gd
-    | Some None => load_gen md g
-    | None => None
-    end.
-
-  Lemma obind_eta {A} (o : option A) : (x <- o ;; Some x) = o.
-  Proof. destruct o; reflexivity. Qed.
-
-  Lemma mapM_const {A B} (c : B) (l : list A) : mapM (fun _ => Some c) l = Some (repeat c (length l)).
-  Proof. induction l as [|x r IH]; cbn; [reflexivity|]. rewrite IH. reflexivity. Qed.
-
-  Lemma load_gen_pending d m md g : In md M -> g < G ->
-    exists ins, exp_inputs d [] m md g = Some ins /\ load_gen md g = Some (pending_gd md g ins).
-  Proof.
-    intros Hmd Hg.
-    pose proof (@Vle md g Hmd Hg) as Hle.
-    pose proof (@Vadd md g Hmd Hg) as Hadd.
-    pose proof (@Vstop md g Hmd Hg) as Htot.
-    unfold load_gen, exp_inputs, pending_gd.
-    replace (m_stop md g <? m_start md g) with false by (symmetry; apply Nat.ltb_ge; exact Hle).
-    fold (m_count md g).
-    destruct (m_count md g =? 0) eqn:E0.
-    - apply Nat.eqb_eq in E0. rewrite E0. cbn. eauto.
-    - unfold exp_row, stored_input. cbn [ref_input_from foldM RefSim.ref_input_from].
-      destruct (md_inputs md) as [[t tbl]|] eqn:EI.
-      + destruct (@Vinputs md t tbl Hmd EI) as [Hlen _].
-        exists (slice_rows (m_start md g) (m_count md g) tbl). split; [|reflexivity].
-        erewrite mapM_ext; [apply mapM_nth_error_seq; lia|].
-        intros x _. cbn. apply obind_eta.
-      + eexists. split; [|reflexivity].
-        cbn. rewrite mapM_const, seq_length, sim_length_eq. reflexivity.
-  Qed.
-
-  (** ---------- GetGeneration ---------- *)
-  Lemma get_generation_loaded md gens g gd :
-    nth_error gens g = Some (Some gd) -> get_generation md gens g = Some (gd, gens).
-  Proof. intros H. unfold get_generation. rewrite H. reflexivity. Qed.
-
-  Lemma get_generation_view md gens g gd :
-    view md gens g = Some gd ->
-    exists gens', get_generation md gens g = Some (gd, gens') /\
-                  nth_error gens' g = Some (Some gd) /\ length gens' = length gens /\
-                  (forall g', g' <> g -> nth_error gens' g' = nth_error gens g').
-  Proof.
-    unfold view, get_generation. intros H.
-    destruct (nth_error gens g) as [[gd0|]|] eqn:E; [| |discriminate].
-    - inversion H; subst. exists gens. repeat split; auto.
-    - rewrite H. cbn.
-      destruct (@upd_nth_Some _ gens g (fun _ => Some (Some gd)) None (Some gd) E eq_refl) as (gens' & U).
-      rewrite U. cbn. exists gens'. split; [reflexivity|].
-      destruct (upd_nth_spec _ _ _ _ U) as (Ln & (x & y & X & Y & Z) & O).
-      inversion Y; subst. repeat split; auto.
-  Qed.
-
-  Lemma view_after md gens gens' g gd :
-    view md gens g = Some gd ->
-    nth_error gens' g = Some (Some gd) ->
-    (forall g', g' <> g -> nth_error gens' g' = nth_error gens g') ->
-    forall g', view md gens' g' = view md gens g'.
-  Proof.
-    intros V N O g'. unfold view. destruct (Nat.eq_dec g' g) as [->|Hne].
-    - rewrite N. symmetry. exact V.
-    - rewrite O by exact Hne. reflexivity.
-  Qed.
-
-  Lemma view_set md gens gens' g gd :
-    upd_nth gens g (fun _ => Some (Some gd)) = Some gens' ->
-    view md gens' g = Some gd /\ (forall g', g' <> g -> view md gens' g' = view md gens g') /\
-    nth_error gens' g = Some (Some gd) /\ (forall g', g' <> g -> nth_error gens' g' = nth_error gens g') /\
-    length gens' = length gens.
-  Proof.
-    intros U. destruct (upd_nth_spec _ _ _ _ U) as (Ln & (x & y & X & Y & Z) & O).
-    inversion Y; subst. unfold view. rewrite Z. repeat split; auto.
-    intros g' Hne. rewrite O by exact Hne. reflexivity.
-  Qed.
-
-  (** ---------- the reference input, link by link ---------- *)
-  Local Notation contrib := (@contrib T Ser).
-  Local Notation add_at := (add_at s_add).
-
-  Definition link_step (d : done_t) (m row : nat) (acc : list Ser) (l : link) : option (list Ser) :=
-    if targets l m row then s <- contrib d l ;; add_at acc (l_dest_var l) s else Some acc.
-
-  Lemma rif_unfold d ls m row init : ref_input_from d ls m row init = foldM (link_step d m row) ls init.
-  Proof. reflexivity. Qed.
-
-  Lemma rif_app d a b m row init :
-    ref_input_from d (a ++ b) m row init = (x <- ref_input_from d a m row init ;; ref_input_from d b m row x).
-  Proof. rewrite !rif_unfold. apply foldM_app. Qed.
-
-  Lemma rif_notarget d ls m row init :
-    (forall l, In l ls -> targets l m row = false) -> ref_input_from d ls m row init = Some init.
-  Proof.
-    intros H. rewrite rif_unfold. apply foldM_id. intros x l Hl. unfold link_step. rewrite H by exact Hl. reflexivity.
-  Qed.
-
-  Lemma add_at_length a v s a' : add_at a v s = Some a' -> length a' = length a.
-  Proof. unfold add_at, RefSim.add_at. intros H. apply upd_nth_spec in H. tauto. Qed.
-
-  Lemma rif_length d ls m row : forall init x, ref_input_from d ls m row init = Some x -> length x = length init.
-  Proof.
-    induction ls as [|l r IH]; intros init x H; rewrite rif_unfold in H; cbn in H.
-    - inversion H; reflexivity.
-    - destruct (link_step d m row init l) as [a|] eqn:E; cbn in H; [|discriminate].
-      rewrite <- rif_unfold in H. apply IH in H. rewrite H.
-      unfold link_step in E. destruct (targets l m row).
-      + destruct (contrib d l); cbn in E; [|discriminate]. eapply add_at_length; eauto.
-      + inversion E; reflexivity.
-  Qed.
-
-  (** [d'] extends [d] (more rows for every model) *)
-  Definition d_ext (d d' : done_t) : Prop :=
-    forall m dm, nth_error d m = Some dm -> exists more, nth_error d' m = Some (dm ++ more).
-
-  Lemma contrib_mono d d' l s : d_ext d d' -> contrib d l = Some s -> contrib d' l = Some s.
-  Proof.
-    intros E H. unfold contrib, RefSim.contrib in *.
-    destruct (nth_error d (l_src_model l)) as [rows|] eqn:R; cbn in H; [|discriminate].
-    destruct (E _ _ R) as (more & R'). rewrite R'. cbn.
-    destruct (nth_error rows (l_src_node l)) as [nr|] eqn:N; cbn in H; [|discriminate].
-    rewrite nth_error_app1 by (apply nth_error_Some; congruence). rewrite N. cbn. exact H.
-  Qed.
-
-  Lemma rif_mono d d' ls m row : d_ext d d' ->
-    forall init x, ref_input_from d ls m row init = Some x -> ref_input_from d' ls m row init = Some x.
-  Proof.
-    intros E. induction ls as [|l r IH]; intros init x H; rewrite rif_unfold in *; cbn in *; [exact H|].
-    destruct (link_step d m row init l) as [a|] eqn:S1; cbn in H; [|discriminate].
-    assert (S2 : link_step d' m row init l = Some a).
-    { unfold link_step in *. destruct (targets l m row); [|exact S1].
-      destruct (contrib d l) as [s|] eqn:C; cbn in S1; [|discriminate].
-      rewrite (contrib_mono _ _ _ _ E C). exact S1. }
-    rewrite S2. cbn. rewrite <- rif_unfold in *. apply IH. exact H.
-  Qed.
-
-  Lemma exp_row_mono d d' applied m md row x : d_ext d d' ->
-    exp_row d applied m md row = Some x -> exp_row d' applied m md row = Some x.
-  Proof.
-    intros E H. unfold exp_row in *. destruct (stored_input md row); cbn in *; [|discriminate].
-    eapply rif_mono; eauto.
-  Qed.
-
-  Lemma exp_inputs_mono d d' applied m md g ins : d_ext d d' ->
-    exp_inputs d applied m md g = Some ins -> exp_inputs d' applied m md g = Some ins.
-  Proof.
-    intros E H. unfold exp_inputs in *. rewrite <- H. apply mapM_ext. intros row Hr.
-    destruct (exp_row d applied m md row) as [x|] eqn:X.
-    - eapply exp_row_mono; eauto.
-    - exfalso. rewrite (mapM_None_some _ _ _ Hr X) in H. discriminate.
-  Qed.
-
-  Lemma exp_row_snoc d applied l m md row :
-    exp_row d (applied ++ [l]) m md row = (x <- exp_row d applied m md row ;; link_step d m row x l).
-  Proof.
-    unfold exp_row. destruct (stored_input md row) as [i0|]; cbn [obind]; [|reflexivity].
-    rewrite rif_app. destruct (ref_input_from d applied m row i0) as [x|]; cbn [obind]; [|reflexivity].
-    rewrite rif_unfold. cbn [foldM]. apply obind_eta.
-  Qed.
-
-  Lemma stored_input_length md row init : In md M ->
-    stored_input md row = Some init -> length init = cat_nin cat (md_name md).
-  Proof.
-    intros Hmd H. unfold stored_input, RefSim.stored_input in H.
-    destruct (md_inputs md) as [[t tbl]|] eqn:E.
-    - destruct (@Vinputs md t tbl Hmd E) as [_ HF]. rewrite Forall_forall in HF. apply HF.
-      eapply nth_error_In; eauto.
-    - inversion H. apply repeat_length.
-  Qed.
-
-  Lemma exp_row_length d applied m md row x : In md M ->
-    exp_row d applied m md row = Some x -> length x = cat_nin cat (md_name md).
-  Proof.
-    intros Hmd H. unfold exp_row in H. destruct (stored_input md row) eqn:S0; cbn in H; [|discriminate].
-    rewrite (rif_length _ _ _ _ _ _ H). eapply stored_input_length; eauto.
-  Qed.
-
-  (** which rows a link points at *)
-  Lemma targets_iff l m md g row : In l L -> nth_error M m = Some md -> g < G ->
-    m_start md g <= row < m_stop md g ->
-    (targets l m row = true <-> l_dest_model l = m /\ l_dest_gen l = g /\ row = m_start md g + l_dest_gen_node l).
-  Proof.
-    intros Hl Hm Hg Hrow. unfold targets. rewrite andb_true_iff, !Nat.eqb_eq.
-    destruct (Vlink l Hl) as (ms & md' & _ & Hd & Hsd & HdG & _ & _ & _ & Hdn & Hdnode & _).
-    assert (Hmd : In md M) by (eapply nth_error_In; eauto).
-    split.
-    - intros [E1 E2]. subst m. rewrite Hm in Hd. inversion Hd; subst md'.
-      assert (l_dest_gen l = g).
-      { eapply (@Vuniq md (l_dest_gen l) g row); eauto.
-        pose proof (@Vadd md (l_dest_gen l) Hmd HdG). lia. }
-      subst g. repeat split; auto. lia.
-    - intros (E1 & E2 & E3). subst. rewrite Hm in Hd. inversion Hd; subst md'. split; auto.
-  Qed.
-
-  Lemma targets_later l m md g row : In l L -> nth_error M m = Some md -> g < G ->
-    m_start md g <= row < m_stop md g -> g <= l_src_gen l -> targets l m row = false.
-  Proof.
-    intros Hl Hm Hg Hrow Hge. destruct (targets l m row) eqn:E; [|reflexivity].
-    apply (targets_iff l m md g row Hl Hm Hg Hrow) in E. destruct E as (_ & E & _).
-    destruct (Vlink l Hl) as (ms & md' & _ & _ & Hsd & _). lia.
-  Qed.
-
-  (** ---------- the table of reference results ---------- *)
-  Definition done_wf (n : nat) (d : done_t) : Prop :=
-    length d = length M /\
-    forall m md, nth_error M m = Some md ->
-      exists dm, nth_error d m = Some dm /\ length dm = m_start md n /\
-                 Forall (fun nr => length (nr_out nr) = cat_nout cat (md_name md)) dm.
-
-  Lemma contrib_done n d l : done_wf n d -> n <= G -> In l L -> l_src_gen l < n ->
-    exists ms dm nr sdata,
-      nth_error M (l_src_model l) = Some ms /\ nth_error d (l_src_model l) = Some dm /\
-      nth_error dm (l_src_node l) = Some nr /\ nth_error (nr_out nr) (l_src_var l) = Some sdata /\
-      contrib d l = Some sdata.
-  Proof.
-    intros [_ Hd] HnG Hl Hn.
-    destruct (Vlink l Hl) as (ms & md & Hs & _ & Hsd & HdG & Hsn & Hsnode & Hsv & _).
-    destruct (Hd _ _ Hs) as (dm & Hdm & Hlen & Hwf).
-    assert (Hms : In ms M) by (eapply nth_error_In; eauto).
-    assert (HsG : l_src_gen l < G) by lia.
-    pose proof (@Vadd ms (l_src_gen l) Hms HsG) as Ha.
-    pose proof (@Vmono ms (S (l_src_gen l)) n Hms ltac:(lia) HnG) as Hmo. cbn [m_start] in Hmo.
-    fold (m_stop ms (l_src_gen l)) in Hmo.
-    destruct (nth_error dm (l_src_node l)) as [nr|] eqn:N.
-    2:{ apply nth_error_None in N. lia. }
-    assert (Ho : length (nr_out nr) = cat_nout cat (md_name ms)).
-    { rewrite Forall_forall in Hwf. apply Hwf. eapply nth_error_In; eauto. }
-    destruct (nth_error (nr_out nr) (l_src_var l)) as [sdata|] eqn:V.
-    2:{ apply nth_error_None in V. lia. }
-    exists ms, dm, nr, sdata. repeat split; auto.
-    unfold contrib, RefSim.contrib. rewrite Hdm. cbn. rewrite N. cbn. exact V.
-  Qed.
-
-  (** ---------- the invariant ---------- *)
-  Definition own_inv (c : sched_state) (md : model_data) (dm : list node_result)
-             (gens : list (option gen_data)) : Prop :=
-    forall g, g < sc_ran c ->
-      nth_error gens g = Some (Some (final_gd md dm g)) \/
-      (nth_error gens g = Some None /\ g < sc_written c /\ g < sc_linked c).
-
-  Definition pend_inv (c : sched_state) (d : done_t) (applied : list link) (m : nat) (md : model_data)
-             (gens : list (option gen_data)) : Prop :=
-    forall g, sc_ran c <= g -> g < G ->
-      exists ins, exp_inputs d applied m md g = Some ins /\ view md gens g = Some (pending_gd md g ins).
-
-  Definition model_inv (c : sched_state) (d : done_t) (applied : list link) (m : nat) (md : model_data)
-             (mr : mref) : Prop :=
-    length (mr_gens mr) = G /\
-    (exists dm, nth_error d m = Some dm /\ own_inv c md dm (mr_gens mr)) /\
-    pend_inv c d applied m md (mr_gens mr) /\
-    mr_init mr = outp && (0 <? m_start md (sc_written c)).
-
-  Definition mem_inv (c : sched_state) (d : done_t) (applied : list link) (refs : list mref) : Prop :=
-    length refs = length M /\
-    forall m md, nth_error M m = Some md ->
-      exists mr, nth_error refs m = Some mr /\ model_inv c d applied m md mr.
-
-  Definition rows_of {A} (proj : node_result -> A) (md : model_data) (dm : list node_result) (a : nat)
-    : list (option A) :=
-    map (fun nr => Some (proj nr)) (firstn a dm) ++ repeat None (m_total md - a).
-
-  Definition exp_model_out (md : model_data) (dm : list node_result) (w : nat) : model_out :=
-    let a := m_start md w in
-    if outp && (0 <? a) then
-      {| mo_inputs := if write_inputs name_eqb sel md then Some (rows_of (@nr_in _ _) md dm a) else None;
-         mo_outputs := if write_outputs name_eqb sel md then Some (rows_of (@nr_out _ _) md dm a) else None;
-         mo_states := Some (rows_of (@nr_st _ _) md dm a) |}
-    else no_out T Ser.
-
-  Definition file_inv (c : sched_state) (d : done_t) (file : out_file T Ser) : Prop :=
-    length file = length M /\
-    forall m md, nth_error M m = Some md ->
-      exists dm, nth_error d m = Some dm /\ nth_error file m = Some (exp_model_out md dm (sc_written c)).
-
-  Definition links_inv (c : sched_state) (applied rem : list link) : Prop :=
-    L = applied ++ rem /\
-    Forall (fun l => l_src_gen l < sc_linked c) applied /\
-    Forall (fun l => sc_linked c <= l_src_gen l) rem.
-
-  Definition sched_ok (c : sched_state) : Prop :=
-    (sc_ran c = sc_linked c \/ sc_ran c = S (sc_linked c)) /\
-    sc_written c <= sc_ran c /\ sc_ran c <= G /\ (outp = false -> sc_written c = 0).
-
-  Definition INV (c : sched_state) (st : istate) (d : done_t) (applied : list link) : Prop :=
-    ref_run_upto s_zero s_add cat K gr (sc_ran c) = Some d /\
-    done_wf (sc_ran c) d /\ sched_ok c /\
-    links_inv c applied (is_links st) /\
-    mem_inv c d applied (is_refs st) /\
-    file_inv c d (is_file st).
-
-  (** ---------- runGeneration(i) for one model ---------- *)
-  Definition node_of (ins : list (list Ser)) (j : nat) (y : list Ser * list T) : node_result :=
-    {| nr_in := nth j ins []; nr_out := fst y; nr_st := snd y |}.
-
-  Definition run_post (i : nat) (md : model_data) (dm : list node_result) (mr mr' : mref)
-             (rows : list node_result) : Prop :=
-    mr_init mr' = mr_init mr /\
-    length (mr_gens mr') = length (mr_gens mr) /\
-    nth_error (mr_gens mr') i = Some (Some (final_gd md (dm ++ rows) i)) /\
-    (forall g, g <> i -> nth_error (mr_gens mr') g = nth_error (mr_gens mr) g) /\
-    length rows = m_count md i /\
-    Forall (fun nr => length (nr_out nr) = cat_nout cat (md_name md)) rows.
-
-  Lemma ref_node_cell i d applied rem m md ins j x :
-    L = applied ++ rem -> Forall (fun l => i <= l_src_gen l) rem ->
-    nth_error M m = Some md -> i < G ->
-    exp_inputs d applied m md i = Some ins ->
-    j < m_count md i -> nth_error ins j = Some x ->
-    ref_node d m md (m_start md i + j) =
-      (p <- nth_error (md_params md) (m_start md i + j) ;;
-       s <- nth_error (md_states md) (m_start md i + j) ;;
-       y <- K (md_name md) p s x ;;
-       Some {| nr_in := x; nr_out := fst y; nr_st := snd y |}).
-  Proof.
-    intros HL Hrem Hm Hi Hexp Hj Hx.
-    assert (Hmd : In md M) by (eapply nth_error_In; eauto).
-    unfold exp_inputs in Hexp.
-    destruct (mapM_nth_error _ _ _ Hexp j (m_start md i + j)) as (x' & Hx' & Hrow).
-    { apply nth_error_seq. exact Hj. }
-    rewrite Hx in Hx'. inversion Hx'; subst x'. clear Hx'.
-    unfold ref_node, RefSim.ref_node. unfold exp_row in Hrow.
-    destruct (stored_input md (m_start md i + j)) as [init|]; cbn [obind] in *; [|discriminate].
-    rewrite HL, rif_app. fold ref_input_from. rewrite Hrow. cbn [obind].
-    rewrite rif_notarget.
-    2:{ intros l Hl. eapply (targets_later l m md i); eauto.
-        - rewrite HL. apply in_or_app. right. exact Hl.
-        - pose proof (@Vadd md i Hmd Hi). lia.
-        - rewrite Forall_forall in Hrem. apply Hrem. exact Hl. }
-    cbn [obind].
-    destruct (nth_error (md_params md) (m_start md i + j)); cbn [obind]; [|reflexivity].
-    destruct (nth_error (md_states md) (m_start md i + j)); cbn [obind]; [|reflexivity].
-    destruct (K (md_name md) l l0 x) as [[o s']|]; reflexivity.
-  Qed.
-
-  Lemma run_model_ok i d applied rem m md mr dm ins :
-    L = applied ++ rem -> Forall (fun l => i <= l_src_gen l) rem ->
-    nth_error M m = Some md -> i < G ->
-    length dm = m_start md i ->
-    view md (mr_gens mr) i = Some (pending_gd md i ins) ->
-    exp_inputs d applied m md i = Some ins ->
-    orel (run_post i md dm mr) (run_model s_zero cat K gr i md mr)
-         (mapM (ref_node d m md) (seq (m_start md i) (m_count md i))).
-  Proof.
-    intros HL Hrem Hm Hi Hdm Hview Hexp.
-    assert (Hmd : In md M) by (eapply nth_error_In; eauto).
-    unfold run_model.
-    destruct (get_generation_view md _ _ _ Hview) as (gens1 & GG & N1 & L1 & O1).
-    fold get_generation. rewrite GG. cbn [obind].
-    unfold pending_gd in *. destruct (m_count md i =? 0) eqn:E0.
-    - (* empty batch *)
-      apply Nat.eqb_eq in E0. rewrite E0. cbn.
-      unfold run_post. cbn. repeat split; auto.
-      rewrite N1. unfold final_gd. rewrite E0. reflexivity.
-    - apply Nat.eqb_neq in E0. cbn [gd_count].
-      replace (m_count md i =? 0) with false by (symmetry; apply Nat.eqb_neq; exact E0).
-      pose proof (mapM_length _ _ _ Hexp) as Hlen_ins. rewrite seq_length in Hlen_ins.
-      (* the reference side, cell by cell *)
-      set (cell := fun j => p <- nth_error (slice_rows (m_start md i) (m_count md i) (md_params md)) j ;;
-                            s <- nth_error (slice_rows (m_start md i) (m_count md i) (md_states md)) j ;;
-                            i0 <- nth_error ins j ;; K (md_name md) p s i0).
-      assert (Href : mapM (ref_node d m md) (seq (m_start md i) (m_count md i)) =
-                     (ys <- mapM cell (seq 0 (m_count md i)) ;;
-                      Some (map (fun p => node_of ins (fst p) (snd p)) (combine (seq 0 (m_count md i)) ys)))).
-      { rewrite seq_as_map, mapM_map. rewrite <- mapM_post. apply mapM_ext.
-        intros j Hjin. apply in_seq in Hjin.
-        assert (Hj : j < m_count md i) by lia.
-        destruct (nth_error ins j) as [x|] eqn:Hx.
-        2:{ apply nth_error_None in Hx. lia. }
-        rewrite (ref_node_cell i d applied rem m md ins j x HL Hrem Hm Hi Hexp Hj Hx).
-        unfold cell. rewrite !nth_error_slice_rows by exact Hj. rewrite Hx.
-        destruct (nth_error (md_params md) (m_start md i + j)); cbn [obind]; [|reflexivity].
-        destruct (nth_error (md_states md) (m_start md i + j)); cbn [obind]; [|reflexivity].
-        destruct (K (md_name md) l l0 x) as [y|]; cbn [obind]; [|reflexivity].
-        unfold node_of. cbn. rewrite (nth_error_nth _ _ _ Hx). reflexivity. }
-      rewrite Href. unfold run_cells. cbn [gd_count gd_params gd_states gd_inputs]. fold cell.
-      destruct (mapM cell (seq 0 (m_count md i))) as [res|] eqn:Hres; cbn [obind orel]; [|exact I].
-      pose proof (mapM_length _ _ _ Hres) as Hlen_res. rewrite seq_length in Hlen_res.
-      match goal with |- context [upd_nth gens1 i ?f] =>
-        destruct (upd_nth_Some gens1 i f _ _ N1 eq_refl) as (gens2 & U2) end.
-      rewrite U2. cbn [obind orel].
-      destruct (view_set md _ _ _ _ U2) as (_ & _ & N2 & O2 & L2).
-      set (rows := map (fun p => node_of ins (fst p) (snd p)) (combine (seq 0 (m_count md i)) res)).
-      assert (Hlen_rows : length rows = m_count md i).
-      { unfold rows. rewrite map_length, combine_length, seq_length. lia. }
-      unfold run_post. cbn [mr_gens mr_init]. repeat split; auto.
-      + lia.
-      + rewrite N2. do 2 f_equal. unfold final_gd.
-        replace (m_count md i =? 0) with false by (symmetry; apply Nat.eqb_neq; exact E0).
-        cbn zeta.
-        replace (slice_rows (m_start md i) (m_count md i) (dm ++ rows)) with rows.
-        2:{ rewrite <- Hdm, <- Hlen_rows. symmetry. apply slice_rows_app_exact. }
-        f_equal.
-        * unfold rows. rewrite map_combine_fst_proj with (q := fun j => nth j ins []).
-          -- rewrite <- Hlen_ins. symmetry. apply map_nth_seq.
-          -- rewrite seq_length. lia.
-          -- reflexivity.
-        * unfold rows. symmetry. apply map_combine_snd_proj with (q := @snd _ _).
-          -- rewrite seq_length. lia.
-          -- reflexivity.
-        * f_equal. unfold rows. symmetry. apply map_combine_snd_proj with (q := @fst _ _).
-          -- rewrite seq_length. lia.
-          -- reflexivity.
-      + intros g Hg. rewrite O2 by exact Hg. apply O1. exact Hg.
-      + (* K_wf *)
-        apply Forall_forall. intros nr Hnr. unfold rows in Hnr.
-        apply in_map_iff in Hnr. destruct Hnr as ([j y] & <- & Hin).
-        apply in_combine_r in Hin. cbn.
-        destruct (mapM_In _ _ _ Hres y Hin) as (j' & _ & Hc). unfold cell in Hc.
-        destruct (nth_error (slice_rows (m_start md i) (m_count md i) (md_params md)) j'); cbn in Hc; [|discriminate].
-        destruct (nth_error (slice_rows (m_start md i) (m_count md i) (md_states md)) j'); cbn in Hc; [|discriminate].
-        destruct (nth_error ins j'); cbn in Hc; [|discriminate].
-        destruct y as [o s']. eapply K_wf; eauto.
-  Qed.
-
-  (** ---------- runGeneration(i): all models ---------- *)
-  Lemma run_models_orel i d
-        (P : nat -> model_data -> mref -> list node_result -> Prop)
-        (Q : nat -> model_data -> list node_result -> mref -> mref -> list node_result -> Prop) :
-    (forall m md mr dm, P m md mr dm ->
-        orel (Q m md dm mr) (run_model s_zero cat K gr i md mr)
-             (mapM (ref_node d m md) (seq (m_start md i) (m_count md i)))) ->
-    forall mds refs off,
-      length refs = length mds ->
-      (forall p md, nth_error mds p = Some md ->
-         exists mr dm, nth_error refs p = Some mr /\ nth_error d (off + p) = Some dm /\ P (off + p) md mr dm) ->
-      orel (fun refs' d' =>
-              length refs' = length mds /\ length d' = length mds /\
-              forall p md, nth_error mds p = Some md ->
-                exists mr mr' dm rows,
-                  nth_error refs p = Some mr /\ nth_error refs' p = Some mr' /\
-                  nth_error d (off + p) = Some dm /\ nth_error d' p = Some (dm ++ rows) /\
-                  Q (off + p) md dm mr mr' rows)
-           (run_models s_zero cat K gr i mds refs)
-           (mapM (fun '(m, md) =>
-                    dm <- nth_error d m ;;
-                    rows <- mapM (ref_node d m md) (seq (m_start md i) (m_count md i)) ;;
-                    Some (dm ++ rows))
-                 (combine (seq off (length mds)) mds)).
-  Proof.
-    intros HPQ. induction mds as [|md mds IH]; intros refs off Hlen Hall.
-    - destruct refs; [|discriminate]. cbn. repeat split; auto.
-      intros p md Hp. destruct p; discriminate.
-    - destruct refs as [|mr refs]; [discriminate|]. cbn [length seq combine mapM run_models].
-      destruct (Hall 0 md eq_refl) as (mr0 & dm & Hmr0 & Hdm & HP). cbn in Hmr0. inversion Hmr0; subst mr0.
-      rewrite Nat.add_0_r in Hdm, HP. rewrite Hdm. cbn [obind].
-      pose proof (HPQ _ _ _ _ HP) as HO.
-      destruct (run_model s_zero cat K gr i md mr) as [mr'|];
-        destruct (mapM (ref_node d off md) (seq (m_start md i) (m_count md i))) as [rows|];
-        cbn [orel obind] in *; try contradiction; [|exact I].
-      assert (Hall' : forall p md0, nth_error mds p = Some md0 ->
-                 exists mr1 dm1, nth_error refs p = Some mr1 /\ nth_error d (S off + p) = Some dm1 /\
-                                 P (S off + p) md0 mr1 dm1).
-      { intros p md0 Hp. destruct (Hall (S p) md0 Hp) as (mr1 & dm1 & A & B & C).
-        replace (S off + p) with (off + S p) by lia. eauto. }
-      specialize (IH refs (S off) ltac:(cbn in Hlen; lia) Hall').
-      destruct (run_models s_zero cat K gr i mds refs) as [refs'|];
-        match goal with |- context [mapM ?F ?l] => destruct (mapM F l) as [d'|] end;
-        cbn [orel obind] in *; try contradiction; [|exact I].
-      destruct IH as (L1 & L2 & IH). cbn [length]. repeat split; try lia.
-      intros p md0 Hp. destruct p as [|p]; cbn in Hp.
-      + inversion Hp; subst md0. exists mr, mr', dm, rows. rewrite Nat.add_0_r. cbn. repeat split; auto.
-      + destruct (IH p md0 Hp) as (mr1 & mr1' & dm1 & rows1 & A & B & C & D & E).
-        exists mr1, mr1', dm1, rows1. replace (off + S p) with (S off + p) by lia. cbn. repeat split; auto.
-  Qed.
-
-  Lemma final_gd_ext md dm more g n : In md M -> S g <= n -> n <= G -> length dm = m_start md n ->
-    final_gd md (dm ++ more) g = final_gd md dm g.
-  Proof.
-    intros Hmd Hg Hn Hlen. unfold final_gd. destruct (m_count md g =? 0); [reflexivity|].
-    cbn zeta. rewrite slice_rows_app_l; [reflexivity|].
-    rewrite (@Vadd md g Hmd ltac:(lia)), Hlen.
-    pose proof (@Vmono md (S g) n Hmd Hg Hn) as H. exact H.
-  Qed.
-
-  Lemma view_ext md gens gens' g :
-    nth_error gens' g = nth_error gens g -> view md gens' g = view md gens g.
-  Proof. intros H. unfold view. rewrite H. reflexivity. Qed.
-
-  Lemma exp_model_out_ext md dm more w n : In md M -> w <= n -> n <= G -> length dm = m_start md n ->
-    exp_model_out md (dm ++ more) w = exp_model_out md dm w.
-  Proof.
-    intros Hmd Hw Hn Hlen. unfold exp_model_out, rows_of.
-    pose proof (@Vmono md w n Hmd Hw Hn) as H.
-    rewrite firstn_app. replace (m_start md w - length dm) with 0 by lia.
-    cbn [firstn]. rewrite app_nil_r. reflexivity.
-  Qed.
-
-  Lemma ref_run_upto_S n d d' :
-    ref_run_upto s_zero s_add cat K gr n = Some d -> ref_gen d n = Some d' ->
-    ref_run_upto s_zero s_add cat K gr (S n) = Some d'.
-  Proof.
-    intros H1 H2. unfold ref_run_upto in *. rewrite seq_S, foldM_app. cbn [Nat.add].
-    rewrite H1. cbn. fold ref_gen. rewrite H2. reflexivity.
-  Qed.
-
-  Lemma ref_run_upto_S_None n d :
-    ref_run_upto s_zero s_add cat K gr n = Some d -> ref_gen d n = None ->
-    ref_run_upto s_zero s_add cat K gr (S n) = None.
-  Proof.
-    intros H1 H2. unfold ref_run_upto in *. rewrite seq_S, foldM_app. cbn [Nat.add].
-    rewrite H1. cbn. fold ref_gen. rewrite H2. reflexivity.
-  Qed.
-
-  Definition c_run (c : sched_state) : sched_state :=
-    {| sc_ran := S (sc_ran c); sc_linked := sc_linked c; sc_written := sc_written c |}.
-
-  Lemma step_run c st d applied :
-    INV c st d applied -> sc_ran c = sc_linked c -> sc_ran c < G ->
-    orel (fun st' d' => INV (c_run c) st' d' applied)
-         (impl_step s_zero s_add cat K name_eqb gr sel st (ARun (sc_ran c)))
-         (ref_gen d (sc_ran c)).
-  Proof.
-    intros (Hrun & Hwf & Hok & Hlk & Hmem & Hfile) Hrl HiG.
-    remember (sc_ran c) as i eqn:Hi_eq.
-    destruct Hlk as (HL & Happ & Hrem). destruct Hmem as (Hlenrefs & Hmem).
-    destruct Hwf as (Hlend & Hwf).
-    cbn [impl_step].
-    set (P := fun (m : nat) (md : model_data) (mr : mref) (dm : list node_result) =>
-                nth_error M m = Some md /\ model_inv c d applied m md mr /\
-                length dm = m_start md i /\
-                Forall (fun nr => length (nr_out nr) = cat_nout cat (md_name md)) dm).
-    set (Q := fun (m : nat) (md : model_data) (dm : list node_result) (mr mr' : mref) (rows : list node_result) =>
-                P m md mr dm /\ run_post i md dm mr mr' rows).
-    assert (HPQ : forall m md mr dm, P m md mr dm ->
-                orel (Q m md dm mr) (run_model s_zero cat K gr i md mr)
-                     (mapM (ref_node d m md) (seq (m_start md i) (m_count md i)))).
-    { intros m md mr dm HP. pose proof HP as (Hm & (Hg & Hown & Hpend & Hinit) & Hdm & Hdwf).
-      destruct (Hpend i ltac:(lia) HiG) as (ins & Hexp & Hview).
-      pose proof (run_model_ok i d applied (is_links st) m md mr dm ins HL) as RO.
-      assert (Hrem' : Forall (fun l => i <= l_src_gen l) (is_links st)).
-      { eapply Forall_impl; [|exact Hrem]. cbn. intros; lia. }
-      specialize (RO Hrem' Hm HiG Hdm Hview Hexp).
-      destruct (run_model s_zero cat K gr i md mr); destruct (mapM (ref_node d m md) _); cbn in *; auto.
-      unfold Q. split; auto. }
-    pose proof (run_models_orel i d P Q HPQ M (is_refs st) 0 Hlenrefs) as RM.
-    assert (Hall : forall p md, nth_error M p = Some md ->
-               exists mr dm, nth_error (is_refs st) p = Some mr /\ nth_error d (0 + p) = Some dm /\ P (0 + p) md mr dm).
-    { intros p md Hp. destruct (Hmem p md Hp) as (mr & Hmr & Hinv).
-      destruct (Hwf p md Hp) as (dm & Hdm & Hl & Hf).
-      exists mr, dm. cbn. unfold P. split; [exact Hmr|]. split; [exact Hdm|]. split; [exact Hp|]. split; [exact Hinv|]. split; [exact Hl|exact Hf]. }
-    specialize (RM Hall).
-    unfold ref_gen, RefSim.ref_gen, indexed.
-    destruct (run_models s_zero cat K gr i M (is_refs st)) as [refs'|];
-      match goal with |- context [mapM ?F ?l] => destruct (mapM F l) as [d'|] eqn:Hd' end;
-      cbn [orel obind] in *; try contradiction; [|exact I].
-    destruct RM as (L1 & L2 & RM).
-    assert (Hext : d_ext d d').
-    { intros m dm Hdm.
-      destruct (nth_error M m) as [md|] eqn:Hm.
-      - destruct (RM m md Hm) as (mr & mr' & dm0 & rows & A & B & C & D & E).
-        cbn in C. rewrite Hdm in C. inversion C; subst dm0. eauto.
-      - apply nth_error_None in Hm. assert (nth_error d m <> None) by congruence.
-        apply nth_error_Some in H. lia. }
-    unfold INV. cbn [is_refs is_links is_file c_run sc_ran sc_linked sc_written].
-    rewrite <- ?Hi_eq.
-    split; [|split; [|split; [|split; [|split]]]].
-    - (* ref_run_upto *)
-      eapply ref_run_upto_S; [exact Hrun|exact Hd'].
-    - (* done_wf *)
-      split; [lia|]. intros m md Hm.
-      destruct (RM m md Hm) as (mr & mr' & dm & rows & A & B & C & D & (HP & RP)).
-      destruct HP as (_ & _ & Hdm & Hdf). destruct RP as (_ & _ & _ & _ & Hlr & Hrf).
-      exists (dm ++ rows). split; [exact D|]. split.
-      + rewrite app_length, Hdm, Hlr. cbn [m_start].
-        apply (@Vadd md i); auto. eapply nth_error_In; eauto.
-      + apply Forall_app. split; assumption.
-    - (* sched_ok *)
-      destruct Hok as (H1 & H2 & H3 & H4). unfold sched_ok. cbn. repeat split; auto; try lia.
-    - (* links *)
-      unfold links_inv. cbn. auto.
-    - (* memory *)
-      split; [lia|]. intros m md Hm.
-      assert (Hmd : In md M) by (eapply nth_error_In; eauto).
-      destruct (RM m md Hm) as (mr & mr' & dm & rows & A & B & C & D & (HP & RP)).
-      destruct HP as (_ & (Hg & (dm0 & Hdm0 & Hown) & Hpend & Hinit) & Hdm & Hdf).
-      cbn [Nat.add] in *. rewrite C in Hdm0. inversion Hdm0; subst dm0. clear Hdm0.
-      destruct RP as (Ri & Rl & Rn & Ro & Hlr & Hrf).
-      exists mr'. split; [exact B|]. unfold model_inv. cbn [c_run sc_ran sc_linked sc_written]. split; [lia|]. split; [|split].
-      + exists (dm ++ rows). split; [exact D|]. intros g Hg'. cbn in Hg' |- *.
-        destruct (Nat.eq_dec g i) as [->|Hne]; [left; exact Rn|].
-        rewrite Ro by exact Hne.
-        destruct (Hown g ltac:(lia)) as [F|F]; [left|right; exact F].
-        rewrite F. rewrite (final_gd_ext md dm rows g i Hmd ltac:(lia) ltac:(lia) Hdm). reflexivity.
-      + intros g Hg1 Hg2. cbn in Hg1. destruct (Hpend g ltac:(lia) Hg2) as (ins & E1 & E2).
-        exists ins. split.
-        * eapply exp_inputs_mono; eauto.
-        * rewrite <- E2. apply view_ext. apply Ro. lia.
-      + rewrite Ri. exact Hinit.
-    - (* file *)
-      destruct Hfile as (Hlf & Hfile). split; [exact Hlf|]. intros m md Hm.
-      assert (Hmd : In md M) by (eapply nth_error_In; eauto).
-      destruct (RM m md Hm) as (mr & mr' & dm & rows & A & B & C & D & (HP & RP)).
-      destruct HP as (_ & _ & Hdm & _).
-      destruct (Hfile m md Hm) as (dm0 & Hdm0 & Hf0). cbn [Nat.add] in *. rewrite C in Hdm0. inversion Hdm0; subst dm0.
-      exists (dm ++ rows). split; [exact D|]. rewrite Hf0. f_equal. symmetry.
-      destruct Hok as (_ & H2 & H3 & _).
-      apply (exp_model_out_ext md dm rows (sc_written c) i Hmd ltac:(lia) ltac:(lia) Hdm).
-  Qed.
-
-  (** ---------- PROCESS LINKS ---------- *)
-  Lemma set_gens_same (refs : list mref) m mr :
-    nth_error refs m = Some mr -> set_gens refs m (mr_gens mr) = Some refs.
-  Proof.
-    intros H. unfold set_gens. eapply upd_nth_same; eauto. destruct mr; reflexivity.
-  Qed.
-
-  Lemma exp_inputs_snoc_other d applied l m md g :
-    (forall row, In row (seq (m_start md g) (m_count md g)) -> targets l m row = false) ->
-    exp_inputs d (applied ++ [l]) m md g = exp_inputs d applied m md g.
-  Proof.
-    intros H. unfold exp_inputs.
-    erewrite mapM_ext; [|intros row _; apply exp_row_snoc].
-    apply mapM_bind_id. intros row x Hr. unfold link_step. rewrite (H row Hr). reflexivity.
-  Qed.
-
-  Lemma apply_link_ok c d applied l rest refs :
-    sc_ran c = S (sc_linked c) -> sc_ran c <= G -> done_wf (sc_ran c) d ->
-    L = applied ++ l :: rest -> l_src_gen l = sc_linked c ->
-    mem_inv c d applied refs ->
-    exists refs', apply_link s_zero s_add cat gr refs l = Some refs' /\
-                  mem_inv c d (applied ++ [l]) refs'.
-  Proof.
-    intros Hran HranG Hdwf HL Hsrc (Hlenrefs & Hmem).
-    assert (Hl : In l L) by (rewrite HL; apply in_or_app; right; left; reflexivity).
-    destruct (Vlink l Hl) as (ms & md & Hms & Hmd & Hsd & HdG & Hsn & Hsnode & Hsv & Hdn & Hdnode & Hdv).
-    assert (Hmsin : In ms M) by (eapply nth_error_In; eauto).
-    assert (Hmdin : In md M) by (eapply nth_error_In; eauto).
-    destruct (contrib_done (sc_ran c) d l Hdwf HranG Hl ltac:(lia))
-      as (ms' & dm & nr & sdata & Hms' & Hdm & Hnr & Hsdata & Hcontrib).
-    rewrite Hms in Hms'. inversion Hms'; subst ms'. clear Hms'.
-    (* source *)
-    destruct (Hmem _ _ Hms) as (mrs & Hmrs & (Hgs & (dm' & Hdm' & Howns) & _ & _)).
-    rewrite Hdm in Hdm'. inversion Hdm'; subst dm'. clear Hdm'.
-    assert (Hsrcgen : nth_error (mr_gens mrs) (l_src_gen l) = Some (Some (final_gd ms dm (l_src_gen l)))).
-    { destruct (Howns (l_src_gen l) ltac:(lia)) as [F|(_ & _ & F)]; [exact F|lia]. }
-    unfold apply_link. rewrite Hms. cbn [obind]. rewrite Hmrs. cbn [obind].
-    fold get_generation. rewrite (get_generation_loaded ms _ _ _ Hsrcgen). cbn [obind].
-    rewrite (set_gens_same refs _ mrs Hmrs). cbn [obind].
-    rewrite Hmd. cbn [obind].
-    (* destination *)
-    destruct (Hmem _ _ Hmd) as (mrd & Hmrd & (Hgd & (dmd & Hdmd & Hownd) & Hpendd & Hinitd)).
-    rewrite Hmrd. cbn [obind].
-    destruct (Hpendd (l_dest_gen l) ltac:(lia) HdG) as (ins & Hexp & Hview).
-    destruct (get_generation_view md _ _ _ Hview) as (gens_d & GG & Nd & Ld & Od).
-    rewrite GG. cbn [obind].
-    assert (Hcs : m_count ms (l_src_gen l) =? 0 = false) by (apply Nat.eqb_neq; lia).
-    assert (Hcd : m_count md (l_dest_gen l) =? 0 = false) by (apply Nat.eqb_neq; lia).
-    unfold final_gd at 1. rewrite Hcs. cbn [gd_outputs obind].
-    rewrite nth_error_map, nth_error_slice_rows by exact Hsn.
-    rewrite <- Hsnode, Hnr. cbn [option_map obind]. rewrite Hsdata. cbn [obind].
-    unfold pending_gd at 1 2 3 4 5. rewrite Hcd. cbn [gd_inputs gd_count gd_states gd_params gd_outputs].
-    pose proof (mapM_length _ _ _ Hexp) as Hlen_ins. rewrite seq_length in Hlen_ins.
-    destruct (nth_error ins (l_dest_gen_node l)) as [row|] eqn:Hrow.
-    2:{ apply nth_error_None in Hrow. lia. }
-    assert (Hrowexp : exp_row d applied (l_dest_model l) md (l_dest_node l) = Some row).
-    { unfold exp_inputs in Hexp.
-      destruct (mapM_nth_error _ _ _ Hexp (l_dest_gen_node l) (l_dest_node l)) as (y & Y1 & Y2).
-      - rewrite Hdnode. apply nth_error_seq. exact Hdn.
-      - congruence. }
-    pose proof (exp_row_length _ _ _ _ _ _ Hmdin Hrowexp) as Hrowlen.
-    destruct (nth_error row (l_dest_var l)) as [x0|] eqn:Hx0.
-    2:{ apply nth_error_None in Hx0. lia. }
-    set (upd_row := fun row0 : list Ser => upd_nth row0 (l_dest_var l) (fun x => Some (s_add x sdata))).
-    destruct (upd_nth_Some row (l_dest_var l) (fun x => Some (s_add x sdata)) x0 _ Hx0 eq_refl) as (row' & Hrow').
-    destruct (upd_nth_Some ins (l_dest_gen_node l) upd_row row row' Hrow Hrow') as (ins' & Hins').
-    fold upd_row. rewrite Hins'. cbn [obind].
-    match goal with |- context [upd_nth gens_d (l_dest_gen l) ?f] =>
-      destruct (upd_nth_Some gens_d (l_dest_gen l) f _ _ Nd eq_refl) as (gens_d' & U2) end.
-    rewrite U2. cbn [obind].
-    destruct (view_set md _ _ _ _ U2) as (V2 & VO2 & N2 & O2 & L2).
-    unfold set_gens.
-    match goal with |- context [upd_nth refs (l_dest_model l) ?f] =>
-      destruct (upd_nth_Some refs (l_dest_model l) f mrd _ Hmrd eq_refl) as (refs' & U3) end.
-    exists refs'. split; [exact U3|].
-    destruct (upd_nth_spec _ _ _ _ U3) as (L3 & (x3 & y3 & X3 & Y3 & Z3) & O3).
-    rewrite Hmrd in X3. inversion X3; subst x3. inversion Y3; subst y3. clear X3 Y3.
-    (* the new expected inputs of the destination generation *)
-    assert (Hexp' : exp_inputs d (applied ++ [l]) (l_dest_model l) md (l_dest_gen l) = Some ins').
-    { unfold exp_inputs.
-      erewrite mapM_ext; [|intros r _; apply exp_row_snoc].
-      rewrite (mapM_bind_one _ (fun r x => link_step d (l_dest_model l) r x l) _
-                             (l_dest_gen_node l) (l_dest_node l) ins).
-      - rewrite <- Hins'. apply upd_nth_ext. intros x. unfold link_step, targets.
-        rewrite !Nat.eqb_refl. cbn [andb]. rewrite Hcontrib. reflexivity.
-      - apply seq_NoDup.
-      - rewrite Hdnode. apply nth_error_seq. exact Hdn.
-      - intros r x Hr Hne. unfold link_step.
-        destruct (targets l (l_dest_model l) r) eqn:Et; [|reflexivity]. exfalso.
-        apply in_seq in Hr.
-        apply (targets_iff l (l_dest_model l) md (l_dest_gen l) r Hl Hmd HdG) in Et.
-        + destruct Et as (_ & _ & Er). apply Hne. lia.
-        + pose proof (@Vadd md (l_dest_gen l) Hmdin HdG). lia.
-      - exact Hexp. }
-    split; [lia|]. intros m md0 Hm0.
-    assert (Hmd0in : In md0 M) by (eapply nth_error_In; eauto).
-    destruct (Nat.eq_dec m (l_dest_model l)) as [->|Hne].
-    - (* the destination model *)
-      rewrite Hmd in Hm0. inversion Hm0; subst md0. clear Hm0.
-      eexists. split; [exact Z3|]. unfold model_inv. cbn [mr_gens mr_init].
-      split; [lia|]. split; [|split].
-      + exists dmd. split; [exact Hdmd|]. intros g Hg.
-        rewrite O2 by lia. rewrite Od by lia. apply Hownd. exact Hg.
-      + intros g Hg1 Hg2. destruct (Nat.eq_dec g (l_dest_gen l)) as [->|Hg3].
-        * exists ins'. split; [exact Hexp'|]. rewrite V2. f_equal.
-          unfold pending_gd. rewrite Hcd. reflexivity.
-        * destruct (Hpendd g Hg1 Hg2) as (insg & E1 & E2). exists insg. split.
-          -- rewrite exp_inputs_snoc_other; [exact E1|].
-             intros r Hr. apply in_seq in Hr.
-             destruct (targets l (l_dest_model l) r) eqn:Et; [|reflexivity]. exfalso.
-             apply (targets_iff l (l_dest_model l) md g r Hl Hmd Hg2) in Et.
-             ++ destruct Et as (_ & Eg & _). congruence.
-             ++ pose proof (@Vadd md g Hmdin Hg2). lia.
-          -- rewrite <- E2. rewrite VO2 by exact Hg3. apply view_ext. apply Od. exact Hg3.
-      + exact Hinitd.
-    - (* any other model *)
-      destruct (Hmem _ _ Hm0) as (mr0 & Hmr0 & (Hg0 & Hown0 & Hpend0 & Hinit0)).
-      exists mr0. split; [rewrite O3 by exact Hne; exact Hmr0|].
-      unfold model_inv. split; [exact Hg0|]. split; [exact Hown0|]. split; [|exact Hinit0].
-      intros g Hg1 Hg2. destruct (Hpend0 g Hg1 Hg2) as (insg & E1 & E2). exists insg. split; [|exact E2].
-      rewrite exp_inputs_snoc_other; [exact E1|].
-      intros r _. unfold targets. replace (l_dest_model l =? m) with false; [reflexivity|].
-      symmetry. apply Nat.eqb_neq. congruence.
-  Qed.
-
-  Lemma process_links_ok c d :
-    sc_ran c = S (sc_linked c) -> sc_ran c <= G -> done_wf (sc_ran c) d ->
-    forall rem applied refs,
-      L = applied ++ rem ->
-      Forall (fun l => sc_linked c <= l_src_gen l) rem ->
-      sorted_nat (map l_src_gen rem) = true ->
-      Forall (fun l => l_src_gen l <= sc_linked c) applied ->
-      mem_inv c d applied refs ->
-      exists refs' applied' rem',
-        process_links s_zero s_add cat gr (sc_linked c) refs rem = Some (refs', rem') /\
-        L = applied' ++ rem' /\
-        Forall (fun l => l_src_gen l <= sc_linked c) applied' /\
-        Forall (fun l => S (sc_linked c) <= l_src_gen l) rem' /\
-        mem_inv c d applied' refs'.
-  Proof.
-    intros Hran HranG Hdwf. induction rem as [|l rest IH]; intros applied refs HL Hrem Hsort Happ Hmem.
-    - exists refs, applied, []. cbn.
-      split; [reflexivity|]. split; [exact HL|]. split; [exact Happ|]. split; [constructor|exact Hmem].
-    - cbn [process_links]. destruct (sc_linked c <? l_src_gen l) eqn:Elt.
-      + apply Nat.ltb_lt in Elt. exists refs, applied, (l :: rest).
-        split; [reflexivity|]. split; [exact HL|]. split; [exact Happ|]. split; [|exact Hmem].
-        cbn [map] in Hsort. destruct (sorted_nat_cons_Forall _ _ Hsort) as [Hf _].
-        constructor; [lia|]. rewrite Forall_map in Hf.
-        eapply Forall_impl; [|exact Hf]. cbn. intros; lia.
-      + apply Nat.ltb_ge in Elt. inversion Hrem as [|? ? Hl0 Hrest]; subst.
-        assert (Hsrc : l_src_gen l = sc_linked c) by lia.
-        destruct (apply_link_ok c d applied l rest refs Hran HranG Hdwf HL Hsrc Hmem) as (refs1 & A1 & M1).
-        rewrite A1. cbn [obind].
-        cbn [map] in Hsort. destruct (sorted_nat_cons_Forall _ _ Hsort) as [_ Hsort'].
-        destruct (IH (applied ++ [l]) refs1) as (refs' & applied' & rem' & P1 & P2 & P3 & P4 & P5); auto.
-        * rewrite <- app_assoc. exact HL.
-        * apply Forall_app. split; [exact Happ|]. constructor; [lia|constructor].
-        * exists refs', applied', rem'.
-          split; [exact P1|]. split; [exact P2|]. split; [exact P3|]. split; [exact P4|exact P5].
-  Qed.
-
-  Definition c_link (c : sched_state) : sched_state :=
-    {| sc_ran := sc_ran c; sc_linked := S (sc_linked c); sc_written := sc_written c |}.
-  Definition c_write (c : sched_state) : sched_state :=
-    {| sc_ran := sc_ran c; sc_linked := sc_linked c; sc_written := S (sc_written c) |}.
-
-  Lemma model_inv_weaken c c' d applied m md mr :
-    sc_ran c' = sc_ran c -> sc_linked c <= sc_linked c' -> sc_written c' = sc_written c ->
-    model_inv c d applied m md mr -> model_inv c' d applied m md mr.
-  Proof.
-    intros E1 E2 E3 (Hg & (dm & Hdm & Hown) & Hpend & Hinit).
-    unfold model_inv. split; [exact Hg|]. split; [|split].
-    - exists dm. split; [exact Hdm|]. intros g Hg'. rewrite E1 in Hg'.
-      destruct (Hown g Hg') as [F|(F1 & F2 & F3)]; [left; exact F|right]. repeat split; auto; lia.
-    - intros g Hg1 Hg2. rewrite E1 in Hg1. apply Hpend; auto.
-    - rewrite E3. exact Hinit.
-  Qed.
-
-  Lemma step_links c st d applied :
-    INV c st d applied -> sc_ran c = S (sc_linked c) ->
-    exists st' applied',
-      impl_step s_zero s_add cat K name_eqb gr sel st (ALinks (sc_linked c)) = Some st' /\
-      INV (c_link c) st' d applied'.
-  Proof.
-    intros (Hrun & Hwf & Hok & (HL & Happ & Hrem) & Hmem & Hfile) Hran.
-    destruct Hok as (Hok1 & Hok2 & Hok3 & Hok4).
-    assert (Hsort : sorted_nat (map l_src_gen (is_links st)) = true).
-    { pose proof Vsorted as HS. rewrite HL, map_app in HS. eapply sorted_nat_app_r; eauto. }
-    destruct (process_links_ok c d Hran Hok3 Hwf (is_links st) applied (is_refs st) HL Hrem Hsort)
-      as (refs' & applied' & rem' & P1 & P2 & P3 & P4 & P5); auto.
-    { eapply Forall_impl; [|exact Happ]. cbn. intros; lia. }
-    cbn [impl_step]. rewrite P1. cbn [obind]. eexists. exists applied'. split; [reflexivity|].
-    unfold INV. cbn [is_refs is_links is_file c_link sc_ran sc_linked sc_written].
-    split; [exact Hrun|]. split; [exact Hwf|]. split; [|split; [|split]].
-    - unfold sched_ok. cbn. repeat split; auto.
-    - unfold links_inv. cbn. split; [exact P2|]. split; [|exact P4].
-      eapply Forall_impl; [|exact P3]. cbn. intros; lia.
-    - destruct P5 as (Q1 & Q2). split; [exact Q1|]. intros m md Hm.
-      destruct (Q2 m md Hm) as (mr & A & B). exists mr. split; [exact A|].
-      eapply model_inv_weaken; [| | |exact B]; cbn; lia.
-    - exact Hfile.
-  Qed.
-
-  (** ---------- writeGeneration(g) ---------- *)
-  Lemma rows_of_0 {A} (proj : node_result -> A) md dm : rows_of proj md dm 0 = repeat None (m_total md).
-  Proof. unfold rows_of. cbn. rewrite Nat.sub_0_r. reflexivity. Qed.
-
-  Lemma write_ds_ok {A} (proj : node_result -> A) md dm a c :
-    a + c <= length dm -> a + c <= m_total md ->
-    write_rows (rows_of proj md dm a) a (map proj (slice_rows a c dm)) = Some (rows_of proj md dm (a + c)).
-  Proof.
-    intros H1 H2. unfold rows_of, slice_rows.
-    set (f := fun nr => Some (proj nr)).
-    assert (Hl : length (map f (firstn a dm)) = a) by (rewrite map_length, firstn_length; lia).
-    assert (Hc : length (map proj (firstn c (skipn a dm))) = c).
-    { rewrite map_length, firstn_length, skipn_length. lia. }
-    pose proof (write_rows_spec (map f (firstn a dm)) (map proj (firstn c (skipn a dm))) (m_total md - (a + c))) as W.
-    rewrite Hl, Hc in W. replace (c + (m_total md - (a + c))) with (m_total md - a) in W by lia.
-    rewrite W. f_equal.
-    rewrite firstn_add_skipn, map_app, <- app_assoc. f_equal. f_equal.
-    unfold f. rewrite map_map. reflexivity.
-  Qed.
-
-  Lemma write_data_ok c d applied m md mr dm :
-    outp = true -> sc_written c < sc_ran c -> sc_ran c <= G ->
-    nth_error M m = Some md -> model_inv c d applied m md mr ->
-    nth_error d m = Some dm -> length dm = m_start md (sc_ran c) ->
-    exists mr',
-      write_data s_zero cat name_eqb gr sel (sc_written c) md mr (exp_model_out md dm (sc_written c))
-        = Some (mr', exp_model_out md dm (S (sc_written c))) /\
-      model_inv (c_write c) d applied m md mr'.
-  Proof.
-    intros Hout Hw HranG Hm (Hg & (dm' & Hdm' & Hown) & Hpend & Hinit) Hdm Hlen.
-    rewrite Hdm in Hdm'. inversion Hdm'; subst dm'. clear Hdm'.
-    assert (Hmd : In md M) by (eapply nth_error_In; eauto).
-    set (g := sc_written c) in *.
-    assert (HgG : g < G) by lia.
-    assert (Hloaded : nth_error (mr_gens mr) g = Some (Some (final_gd md dm g))).
-    { destruct (Hown g Hw) as [F|(_ & F & _)]; [exact F|lia]. }
-    pose proof (@Vadd md g Hmd HgG) as Hadd.
-    pose proof (@Vmono md (S g) (sc_ran c) Hmd ltac:(lia) HranG) as Hmono. cbn [m_start] in Hmono.
-    fold (m_stop md g) in Hmono.
-    pose proof (@Vstop md g Hmd HgG) as Hstop.
-    unfold write_data. fold get_generation. rewrite (get_generation_loaded md _ _ _ Hloaded). cbn [obind].
-    assert (Hinv' : forall init', init' = outp && (0 <? m_start md (S g)) ->
-              model_inv (c_write c) d applied m md {| mr_gens := mr_gens mr; mr_init := init' |}).
-    { intros init' Hi'. unfold model_inv. cbn [mr_gens mr_init c_write sc_ran sc_linked sc_written].
-      split; [exact Hg|]. split; [|split].
-      - exists dm. split; [exact Hdm|]. intros g' Hg'.
-        destruct (Hown g' Hg') as [F|(F1 & F2 & F3)]; [left; exact F|right]. cbn. repeat split; auto.
-      - exact Hpend.
-      - exact Hi'. }
-    unfold final_gd. destruct (m_count md g =? 0) eqn:E0.
-    - (* empty batch: nothing to write *)
-      apply Nat.eqb_eq in E0. cbn [gd_count empty_gd Nat.eqb].
-      eexists. split.
-      + f_equal. f_equal. unfold exp_model_out. cbn [m_start]. fold (m_stop md g).
-        replace (m_stop md g) with (m_start md g) by lia. reflexivity.
-      + apply Hinv'. rewrite Hinit. cbn [m_start]. fold (m_stop md g).
-        replace (m_stop md g) with (m_start md g) by lia. reflexivity.
-    - apply Nat.eqb_neq in E0. cbn zeta. cbn [gd_count].
-      replace (m_count md g =? 0) with false by (symmetry; apply Nat.eqb_neq; exact E0).
-      rewrite (Hnosplit md Hmd).
-      set (rows := slice_rows (m_start md g) (m_count md g) dm).
-      assert (Hrows : length rows = m_count md g).
-      { unfold rows. apply length_slice_rows. lia. }
-      assert (Hnext : m_start md (S g) = m_start md g + m_count md g) by (cbn [m_start]; fold (m_stop md g); lia).
-      assert (Hpos : 0 <? m_start md (S g) = true) by (apply Nat.ltb_lt; lia).
-      assert (WI : write_rows (rows_of (@nr_in _ _) md dm (m_start md g)) (m_start md g) (map (@nr_in _ _) rows)
-                   = Some (rows_of (@nr_in _ _) md dm (m_start md (S g)))).
-      { rewrite Hnext. apply write_ds_ok; lia. }
-      assert (WO : write_rows (rows_of (@nr_out _ _) md dm (m_start md g)) (m_start md g) (map (@nr_out _ _) rows)
-                   = Some (rows_of (@nr_out _ _) md dm (m_start md (S g)))).
-      { rewrite Hnext. apply write_ds_ok; lia. }
-      assert (WS : write_rows (rows_of (@nr_st _ _) md dm (m_start md g)) (m_start md g) (map (@nr_st _ _) rows)
-                   = Some (rows_of (@nr_st _ _) md dm (m_start md (S g)))).
-      { rewrite Hnext. apply write_ds_ok; lia. }
-      unfold write_data_h5. cbn [gd_outputs gd_inputs gd_states obind]. rewrite Hinit, Hout. cbn [andb].
-      unfold exp_model_out at 1 2 3 4. rewrite Hout. cbn [andb]. cbn zeta.
-      destruct (0 <? m_start md g) eqn:Ea.
-      + (* datasets exist already *)
-        cbn [obind negb mo_inputs mo_outputs mo_states].
-        eexists. split.
-        * unfold exp_model_out. rewrite Hout, Hpos. cbn [andb]. cbn zeta.
-          destruct (write_inputs name_eqb sel md), (write_outputs name_eqb sel md);
-            cbn [obind]; rewrite ?WI, ?WO, ?WS; cbn [obind]; reflexivity.
-        * apply Hinv'. rewrite Hout, Hpos. reflexivity.
-      + (* first non-empty generation of this model: InitialiseOutputs *)
-        apply Nat.ltb_ge in Ea. assert (Ea0 : m_start md g = 0) by lia.
-        rewrite map_length, Hrows.
-        replace (0 <? m_count md g) with true by (symmetry; apply Nat.ltb_lt; lia).
-        cbn [obind negb mo_inputs mo_outputs mo_states no_out create_ds].
-        rewrite Ea0 in WI, WO, WS. rewrite rows_of_0 in WI. rewrite rows_of_0 in WO. rewrite rows_of_0 in WS. rewrite Ea0.
-        eexists. split.
-        * unfold exp_model_out. rewrite Hout, Hpos. cbn [andb]. cbn zeta.
-          destruct (write_inputs name_eqb sel md), (write_outputs name_eqb sel md);
-            cbn [obind]; rewrite ?WI, ?WO, ?WS; cbn [obind]. Show. 
-Abort. End Proofs.
+    intros (I1 & I2 & I3 & I4 & I5) H. unfold xnext in H.
+    destruct (x_exited s) eqn:Ex; [discriminate|].
+    destruct l as [g|g| |g|].
+    - (* XSkip *)
+      destruct ((g =? x_next s) && (g <? G) && (xcount counts g =? 0) && negb (x_waiting s)) eqn:C; [|discriminate].
+      inversion H; subst s'; clear H.
+      repeat (apply andb_true_iff in C; destruct C as [C ?]).
+      apply Nat.eqb_eq in C. apply Nat.ltb_lt in H1. apply Nat.eqb_eq in H0. apply negb_true_iff in H.
+      subst g. unfold xinv; cbn [x_next x_waiting x_queue x_file x_exited]. rewrite H in I1. rewrite nonempty_gens_S.
+      replace (0 <? xcount counts (x_next s)) with false by (symmetry; apply Nat.ltb_ge; lia).
+      rewrite !app_nil_r in *. repeat split; auto; try lia; try discriminate.
+ Show. Abort. End P.
